@@ -95,12 +95,18 @@ func walk[S, T any](ctx context.Context, g *graph[S], t *traversal[S, T]) error 
 		eg.SetLimit(t.maxConcurrency + 1)
 	}
 
+	// closed once the loop below has started every extremity node
+	spawned := make(chan struct{})
+
 	eg.Go(func() error {
 		for {
 			verifYield("C.select", "")
 			select {
 			case <-ctx.Done():
 				verifYield("C.ctxDone", "")
+				// keep this goroutine's slot in the group until the caller has stopped starting nodes:
+				// otherwise maxConcurrency+1 visitors could run at once after an error
+				<-spawned
 				return nil
 			case node := <-nodeCh:
 				verifYield("C.recv", node.key)
@@ -121,6 +127,7 @@ func walk[S, T any](ctx context.Context, g *graph[S], t *traversal[S, T]) error 
 	for _, node := range t.extremityNodes(g) {
 		t.visit(ctx, eg, node, nodeCh)
 	}
+	close(spawned)
 
 	verifYield("M.wait", "")
 	return eg.Wait()
